@@ -96,7 +96,7 @@ func EndBlocker(ctx sdk.Context, k keeper.Keeper) {
 	k.ClearBallots(ctx)
 
 	// if we are at the last block of slash window, slash validators and reset miss count
-	if types.IsLastBlockOfSlashWindow(ctx, params.SlashWindow) {
+	if types.IsSlashWindowClosing(ctx.BlockHeight(), params.VotePeriod, params.SlashWindow) {
 		k.SlashValidatorsAndResetMissCount(ctx)
 	}
 }
